@@ -23,6 +23,7 @@ SPEC = {
         "hand-written model Model/Framing.v of decodeData/readLoop/convertToMessage, compared on this run with the implementation (decodeData driven through one persistent bytes.Buffer; the same reads through the REAL readLoop via a net.Conn that hands out the injected reads; convertToMessage; ConnectionPool.handleConnection over net.Pipe, including frames of 33-300 KB followed at once by further frames) on the generated streams",
         "decoder verdict (panic / error / bytes used) per frame is oracle data taken from the registered type's own Decode (the codecs are the subject of C21)",
         "message-id table and the two length constants are compared with gnet.MessageIDReverseMap / gnet constants on every run",
+        "handler totality is observed, not proved: each message produced by convertToMessage is run through its real Handle + process on the recording daemoner (hook VerifC23Node.VerifC23Deliver) under recover; the Coq side only requires the 'no handler panicked' column",
         "harness printer of inputs/outputs as Coq terms; disconnect reasons identified by sentinel identity",
     ],
     "assumptions": [
